@@ -2180,9 +2180,13 @@ int cif_value_init_numb(cif_value_tp *n, double val, double su, int scale, int m
         FAILURE_HANDLING;
         struct numb_value_s *numb = &(n->as_numb);
         int most_significant_place = MSP(val);
-        char *locale = setlocale(LC_NUMERIC, "C");
+        /* record the numeric locale in effect (a copy: later setlocale() calls may overwrite the string) */
+        char *locale = setlocale(LC_NUMERIC, NULL);
 
         if (locale != NULL) {
+            locale = strdup(locale);
+        }
+        if ((locale != NULL) && (setlocale(LC_NUMERIC, "C") != NULL)) {
             char *digit_buf = to_digits(val, scale);
 
             if (digit_buf == NULL) {
@@ -2236,6 +2240,7 @@ int cif_value_init_numb(cif_value_tp *n, double val, double su, int scale, int m
 
                     /* restore the original locale */
                     setlocale(LC_NUMERIC, locale);
+                    free(locale);
 
                     return CIF_OK;
                 }
@@ -2249,6 +2254,7 @@ int cif_value_init_numb(cif_value_tp *n, double val, double su, int scale, int m
             /* restore the original locale */
             setlocale(LC_NUMERIC, locale);
         }
+        free(locale);
 
         FAILURE_TERMINUS;
     }
@@ -2285,9 +2291,13 @@ int cif_value_autoinit_numb(cif_value_tp *numb, double val, double su, unsigned 
             int result_code = CIF_INTERNAL_ERROR;
 
             /* number formatting and parsing must be done in the C locale to ensure portability */
-            char *locale = setlocale(LC_NUMERIC, "C");
+            /* record the numeric locale in effect (a copy: later setlocale() calls may overwrite the string) */
+            char *locale = setlocale(LC_NUMERIC, NULL);
 
             if (locale != NULL) {
+                locale = strdup(locale);
+            }
+            if ((locale != NULL) && (setlocale(LC_NUMERIC, "C") != NULL)) {
                 char buf[BUF_SIZE];
                 int rule_digits;
 
@@ -2341,6 +2351,7 @@ int cif_value_autoinit_numb(cif_value_tp *numb, double val, double su, unsigned 
 
                 (void) setlocale(LC_NUMERIC, locale);
             }
+            free(locale);
 
             return result_code;
         }
